@@ -106,10 +106,7 @@ type script struct {
 }
 
 func startUpstream() (string, func()) {
-	ln, err := net.Listen("tcp", "127.0.0.1:0")
-	if err != nil {
-		panic(err)
-	}
+	ln := listenLocal()
 	go func() {
 		for {
 			c, err := ln.Accept()
@@ -289,7 +286,7 @@ func c11Server(run *Run, dir string) int {
 	for _, sc := range []*scenario{scs[0], scs[len(scs)-1]} {
 		okc := false
 		for w := 0; w < 200 && !okc; w++ {
-			if c, err := net.DialTimeout("tcp", sc.Addr, 100*time.Millisecond); err == nil {
+			if c, err := dialLocal(sc.Addr, 100*time.Millisecond); err == nil {
 				c.Close()
 				okc = true
 			} else {
@@ -308,7 +305,7 @@ func c11Server(run *Run, dir string) int {
 	runScenario := func(sc *scenario) {
 		conns := make([]net.Conn, len(sc.Reqs))
 		for k := range sc.Reqs {
-			c, err := net.DialTimeout("tcp", sc.Addr, time.Second)
+			c, err := dialLocal(sc.Addr, time.Second)
 			if err != nil {
 				sc.Err = "dial: " + err.Error()
 				return
@@ -373,7 +370,7 @@ func c11Server(run *Run, dir string) int {
 		handler.GracefulStopListener(nil, sc.Name)
 		sc.ExitAt = ms()
 		// no new connection after the stop
-		if c, err := net.DialTimeout("tcp", sc.Addr, 150*time.Millisecond); err == nil {
+		if c, err := dialLocal(sc.Addr, 150*time.Millisecond); err == nil {
 			sc.AccAft = true
 			c.Close()
 		}
